@@ -166,6 +166,13 @@ def ladderFetch (shape : List Nat) : Ladder RB LB where
       [.fid, .fetch]
   intendedLinks := [(.elemTables, .fetch), (.fetchList, .fetch)]
 
+/-- all matcher shapes with at most `len` matchers of 1 … `maxm` operands each -/
+def shapes : Nat → Nat → List (List Nat)
+  | 0, _ => [[]]
+  | len + 1, maxm =>
+    shapes len maxm ++ (shapes len maxm).flatMap (fun s =>
+      if s.length = len then (List.range maxm).map (fun m => (m + 1) :: s) else [])
+
 /-! ## (d) add_fetch_to_state: growth of an element's fetcher table (fetch.c) -/
 
 inductive RD where
@@ -194,7 +201,7 @@ inductive RE where
   deriving DecidableEq, Repr
 
 inductive LE where
-  | init_failed | alloc_bs_failed | alloc_failed
+  | init_failed | alloc_bs_failed | alloc_failed | alloc_peer_failed
   deriving DecidableEq, Repr
 
 /-- handle_new_jet_connection + init_socket_peer + init_peer -/
@@ -202,7 +209,7 @@ def ladderJetConn : Ladder RE LE where
   steps := [
     { name := "accept_common: accept()", ok := [acquire .fd], canFail := false },
     { name := "prepare_peer_socket", ok := [], failPre := [release .fd] },
-    { name := "alloc_jet_peer: cjet_malloc", ok := [acquire .peer], failTo := some .alloc_failed },
+    { name := "alloc_jet_peer: cjet_malloc", ok := [acquire .peer], failTo := some .alloc_peer_failed },
     { name := "buffered_socket_acquire: cjet_malloc", ok := [acquire .bs], failTo := some .alloc_bs_failed },
     { name := "init_socket_peer: init_peer: add_routing_table", ok := [acquire .rtable],
       failPre := [release .bs], failTo := some .alloc_bs_failed },
@@ -210,7 +217,7 @@ def ladderJetConn : Ladder RE LE where
     { name := "read_exactly: register with the event loop", ok := [link .epoll .bs], canFail := false } ]
   chain := [
     (.alloc_bs_failed, [release .peer]),
-    (.alloc_failed, [release .fd]) ]
+    (.alloc_peer_failed, [release .fd]) ]
   intended := [.rtable, .bs, .peer, .fd]
   intendedLinks := [(.epoll, .bs), (.peerList, .peer)]
 
@@ -250,7 +257,10 @@ def ladderWsPeer : Ladder RE LE where
       canFail := false },
     { name := "init_websocket_peer: init_peer: add_routing_table", ok := [acquire .rtable],
       failPre := [release .wspeer, respond] ++ freeConnection true },
-    { name := "init_peer: list_add_tail(peer_list)", ok := [link .peerList .wspeer], canFail := false } ]
+    { name := "init_peer: list_add_tail(peer_list)", ok := [link .peerList .wspeer], canFail := false },
+    { name := "init_websocket_peer: websocket_init (fails only without an error routine)", ok := [],
+      -- free_peer_resources(&ws_peer->peer); return -1; then as above
+      failPre := [unlink .peerList .wspeer, release .rtable, release .wspeer, respond] ++ freeConnection true } ]
   intended := [.rtable, .wspeer, .bs, .conn, .fd]
   intendedLinks := [(.peerList, .wspeer), (.parserData, .wspeer), (.epoll, .bs), (.connList, .conn)]
 
